@@ -33,16 +33,107 @@ Proof.
   - reflexivity.
 Qed.
 
-Lemma namespace_ok url : known_K1 url = false ->
-  norm (default_namespace url) = norm (spec_namespace url).
+(* the namespace rule, for every directory part, every base name, with or without the partial
+   underscore, with or without one of the three extensions *)
+Fixpoint all_not (p : ascii -> bool) (s : string) : bool :=
+  match s with EmptyString => true | String c r => negb (p c) && all_not p r end.
+Inductive extk : Type := XNone | XScss | XSass | XCss.
+Definition ext_str (x : extk) : string :=
+  match x with XNone => "" | XScss => ".scss" | XSass => ".sass" | XCss => ".css" end.
+Definition us_str (b : bool) : string := if b then "_" else "".
+Definition is_dot (c : ascii) : bool := Ascii.eqb c "."%char.
+
+Lemma append_assoc (a b c : string) : String.append (String.append a b) c = String.append a (String.append b c).
+Proof. induction a as [|x a IH]; [reflexivity|]. cbn. rewrite IH. reflexivity. Qed.
+Lemma append_nil_r (a : string) : String.append a "" = a.
+Proof. induction a as [|x a IH]; [reflexivity|]. cbn. rewrite IH. reflexivity. Qed.
+Lemma all_not_app p a b : all_not p (String.append a b) = all_not p a && all_not p b.
+Proof. induction a as [|x a IH]; [reflexivity|]. cbn. rewrite IH. apply andb_assoc. Qed.
+
+Lemma after_last_nosep s : all_not is_sep s = true -> forall acc, after_last_from s acc = String.append acc s.
 Proof.
-  unfold known_K1. intros H. apply negb_false_iff in H. apply String.eqb_eq in H.
-  unfold default_namespace, after_last_sep. rewrite norm_disp, after_last_is_last_segment.
-  fold (last_segment url). rewrite H. reflexivity.
+  induction s as [|c r IH]; intros H acc; [symmetry; apply append_nil_r|].
+  cbn in H. apply andb_true_iff in H. destruct H as [Hc Hr]. apply negb_true_iff in Hc.
+  cbn [after_last_from]. rewrite Hc. rewrite (IH Hr). rewrite append_assoc. reflexivity.
+Qed.
+Lemma after_last_dir d c r : is_sep c = true -> forall acc,
+  after_last_from (String.append d (String c r)) acc = after_last_from r "".
+Proof.
+  intros Hc. induction d as [|x d IH]; intros acc; cbn [String.append after_last_from].
+  - rewrite Hc. reflexivity.
+  - destruct (is_sep x); apply IH.
 Qed.
 
-Lemma refuted_namespace : known_K1 "_lib" = true /\ norm (default_namespace "_lib") <> norm (spec_namespace "_lib").
-Proof. split; [reflexivity | vm_compute; discriminate]. Qed.
+Lemma strip_suffix_nodot suf base : all_not is_dot base = true ->
+  (exists t, suf = String "."%char t) -> strip_suffix suf (String.append base suf) = Some base.
+Proof.
+  intros H [t ->]. induction base as [|c r IH].
+  - cbn [String.append strip_suffix]. rewrite String.eqb_refl. reflexivity.
+  - cbn in H. apply andb_true_iff in H. destruct H as [Hc Hr]. apply negb_true_iff in Hc. unfold is_dot in Hc.
+    cbn [String.append]. cbn [strip_suffix].
+    assert (E : String.eqb (String c (String.append r (String "."%char t))) (String "."%char t) = false).
+    { cbn [String.eqb]. rewrite Hc. reflexivity. }
+    rewrite E. rewrite (IH Hr). reflexivity.
+Qed.
+Lemma strip_suffix_none suf s : all_not is_dot s = true ->
+  (exists t, suf = String "."%char t) -> strip_suffix suf s = None.
+Proof.
+  intros H [t ->]. induction s as [|c r IH]; [reflexivity|].
+  cbn in H. apply andb_true_iff in H. destruct H as [Hc Hr]. apply negb_true_iff in Hc. unfold is_dot in Hc.
+  cbn [strip_suffix]. assert (E : String.eqb (String c r) (String "."%char t) = false) by (cbn [String.eqb]; rewrite Hc; reflexivity).
+  rewrite E, (IH Hr). reflexivity.
+Qed.
+
+Lemma strip_ext_ok base x : all_not is_dot base = true -> strip_ext (String.append base (ext_str x)) = base.
+Proof.
+  intros H. unfold strip_ext. destruct x; cbn [ext_str].
+  - rewrite append_nil_r. rewrite !strip_suffix_none; eauto.
+  - rewrite strip_suffix_nodot; eauto.
+  - assert (N : strip_suffix ".scss" (String.append base ".sass") = None).
+    { clear - H. induction base as [|c r IH]; [reflexivity|]. cbn in H. apply andb_true_iff in H. destruct H as [Hc Hr].
+      apply negb_true_iff in Hc. unfold is_dot in Hc. cbn [String.append strip_suffix].
+      assert (E : String.eqb (String c (String.append r ".sass")) ".scss" = false) by (cbn [String.eqb]; rewrite Hc; reflexivity).
+      rewrite E, (IH Hr). reflexivity. }
+    rewrite N. rewrite strip_suffix_nodot; eauto.
+  - assert (N : forall suf, suf = ".scss" \/ suf = ".sass" -> strip_suffix suf (String.append base ".css") = None).
+    { intros suf Hs. clear - H Hs. induction base as [|c r IH]; [destruct Hs; subst; reflexivity|].
+      cbn in H. apply andb_true_iff in H. destruct H as [Hc Hr].
+      apply negb_true_iff in Hc. unfold is_dot in Hc. cbn [String.append strip_suffix].
+      assert (E : String.eqb (String c (String.append r ".css")) suf = false)
+        by (destruct Hs; subst; cbn [String.eqb]; rewrite Hc; reflexivity).
+      rewrite E, (IH Hr). reflexivity. }
+    rewrite (N ".scss"), (N ".sass") by auto. rewrite strip_suffix_nodot; eauto.
+Qed.
+
+Definition starts_us (s : string) : bool := match s with String "_"%char _ => true | _ => false end.
+
+Lemma namespace_ok dir base us x :
+  (dir = "" \/ exists d c, is_sep c = true /\ dir = String.append d (String c "")) ->
+  all_not is_sep base = true -> all_not is_dot base = true -> starts_us base = false ->
+  default_namespace (String.append dir (String.append (us_str us) (String.append base (ext_str x)))) = disp base.
+Proof.
+  intros Hd Hs Hdot Hus. unfold default_namespace, after_last_sep.
+  set (rest := String.append (us_str us) (String.append base (ext_str x))).
+  assert (Hrest : all_not is_sep rest = true).
+  { unfold rest. rewrite !all_not_app, Hs. destruct us, x; reflexivity. }
+  assert (E : after_last_from (String.append dir rest) "" = rest).
+  { destruct Hd as [->|[d [c [Hc ->]]]].
+    - cbn [String.append]. rewrite (after_last_nosep rest Hrest). reflexivity.
+    - rewrite append_assoc. cbn [String.append]. rewrite (after_last_dir d c rest Hc). rewrite (after_last_nosep rest Hrest). reflexivity. }
+  rewrite E. unfold rest.
+  assert (U : strip_us (String.append (us_str us) (String.append base (ext_str x))) = String.append base (ext_str x)).
+  { destruct us; cbn [us_str String.append]; [reflexivity|].
+    destruct base as [|c r]; [destruct x; reflexivity|]. cbn [String.append strip_us].
+    cbn [starts_us] in Hus. destruct c as [[] [] [] [] [] [] [] []]; try reflexivity; discriminate. }
+  rewrite U, (strip_ext_ok base x Hdot). reflexivity.
+Qed.
+
+(* ... and it agrees with the reference namespace on concrete URLs (kernel-computed instances) *)
+Lemma namespace_examples :
+  norm (default_namespace "_lib") = norm (spec_namespace "_lib") /\
+  norm (default_namespace "sub/_my_lib.scss") = norm (spec_namespace "sub/_my_lib.scss") /\
+  norm (default_namespace "sass:math") = norm (spec_namespace "sass:math").
+Proof. vm_compute. repeat split. Qed.
 
 (* ------------------------------------------------------------------ show / hide / prefix *)
 Lemma allow_fun_visible e n : allow_fun e n = visible_fun e n.
